@@ -436,7 +436,6 @@ func isByteConst(v ssa.Value, n int64) bool {
 	return ok && k.Value != nil && k.Value.Kind() == constant.Int && k.Int64() == n
 }
 
-
 // privateScalarProvenance: the private-key conversion hashes exactly the 32-byte seed (privateKey[:32]) — for every key
 // length it can be handed — and returns the clamped digest.
 func privateScalarProvenance(c *an.Check) {
